@@ -1,4 +1,5 @@
 import Rangers.Model.TrieLive
+import Rangers.Model.TrieDecode
 /-
 The two machines the C02 theorems relate, as pure step functions over `Trie.Op`:
   `lstep`  the live trie (`LTrie`: flags, hash nodes, cache generations, node database)
@@ -25,6 +26,19 @@ def LTrie.reopen (H : Bytes → Bytes) (t : LTrie) : LTrie × Obs :=
   | some t' => ({ t' with limit := t.limit }, .root r.1)
   | none => (r.2, .err)
 
+/-- `NewTrie(root, db)` after `NodeDatabase.Commit` flushed the memory cache: the root comes
+    back from its disk blob through `decodeNode` -/
+def LTrie.openDisk (db : Store) (root : Bytes) : Option LTrie :=
+  if root == emptyRoot || root == List.replicate 32 0 then some { root := .nil, gen := 0, limit := 0, db := db }
+  else (resolveHashDisk db 0 root).map (fun n => { root := n, gen := 0, limit := 0, db := db })
+
+/-- `Commit` + `NodeDatabase.Commit` + `NewTrie(root, db)` -/
+def LTrie.reopenDisk (H : Bytes → Bytes) (t : LTrie) : LTrie × Obs :=
+  let r := t.commit H
+  match LTrie.openDisk r.2.db r.1 with
+  | some t' => ({ t' with limit := t.limit }, .root r.1)
+  | none => (r.2, .err)
+
 /-- one operation on the live trie; `F` is the fuel for full iteration -/
 def lstep (H : Bytes → Bytes) (F : Nat) (t : LTrie) : Op → LTrie × Obs
   | .upd k v =>
@@ -42,7 +56,7 @@ def lstep (H : Bytes → Bytes) (F : Nat) (t : LTrie) : Op → LTrie × Obs
   | .hash => let r := t.hash H; (r.2, .root r.1)
   | .commit => let r := t.commit H; (r.2, .root r.1)
   | .reopen => t.reopen H
-  | .dbcommit => t.reopen H
+  | .dbcommit => t.reopenDisk H
   | .cachelimit n => ({ t with limit := n }, .ok)
   | .iter start =>
     -- `newNodeIterator` calls `trie.Hash()` (caching hashes in the root), then walks the trie
